@@ -66,7 +66,7 @@ def combos(names):
     lists = {"empty": [], "one": [S("INTEGER.+")], "full": names}
     out = []
     for ln, lst in lists.items():
-        for nb in (0, 1, 5):
+        for nb in (0, 1, 11, 5, 15):
             for p in PROBS:
                 out.append((ln, lst, nb, p))
     return out
@@ -105,7 +105,7 @@ def streams(seed, tier):
     per_case = {"quick": 16000, "thorough": 32000, "search": 4000}[tier]
     cases = []
     for j, n in enumerate([1] * 16 + [2, 3, 4, 5, 6, 8, 10, 13] * 4 + [20, 30] * 4):
-        st = state(bind=BINDS[(0, 1, 5)[j % 3]], cfg=cfg(pnew=PROBS[j % 4]))
+        st = state(bind=BINDS[(0, 1, 11, 5, 15)[j % 5]], cfg=cfg(pnew=PROBS[j % 4]))
         cases.append(case(j % 2, 2, max(200, per_case // n), [st, [], n, -1, []], tape(rng)))
     st = Stream("float-leaf-volume", "rand", "rand.check", cases,
                 "random_code_with_size for sizes 1..30 over the EMPTY instruction list, about %d points per case, %d cases, validated by valid_gen and not executed: "
@@ -133,8 +133,9 @@ def streams(seed, tier):
             for (ln, lst) in (("empty", []), ("full", names)):
                 if min(abs(n), abs(mp)) > 200:
                     continue      # both huge: an allocation-sized request, C15's business
-                nb, p = rng.choice([0, 1, 5]), rng.choice(PROBS)
-                st = state(int=[n, 42], code=[], bind=BINDS[nb], cfg=cfg(pnew=p, maxpts=mp))
+                nb, p = rng.choice([0, 1, 5, 11, 15]), rng.choice(PROBS)
+                # unbound names wait on the NAME stack: a name leaf is a BOUND name (or a new one), never one of these
+                st = state(int=[n, 42], code=[], name=rng.choice([[], ["PENDING", "U1"], ["U2"]]), bind=BINDS[nb], cfg=cfg(pnew=p, maxpts=mp))
                 cases.append(case(rng.randrange(2), 11, n_draws, [st, lst, S("CODE.RAND"), STEPS, [S(d) for d in EXEC_DENY], 0], tape(rng)))
     cases.append(case(0, 11, 3, [state(), names, S("CODE.RAND"), STEPS, [], 0], tape(rng)))
     out.append(Stream("CODE.RAND", "rand", "rand.check", cases,
